@@ -39,7 +39,7 @@ Fixpoint cstrcmp (a b : list Z) : Z :=
 Definition cstrcasecmp (a b : list Z) : Z := cstrcmp (cstr_tolower a) (cstr_tolower b).
 
 (* bytes.HasPrefix, bytes.Index, bytes.IndexByte *)
-Fixpoint has_prefix (s p : list Z) : bool :=
+Fixpoint has_prefix (s p : list Z) {struct p} : bool :=
   match p with
   | [] => true
   | y :: p' => match s with [] => false | x :: s' => (x =? y) && has_prefix s' p' end
